@@ -123,6 +123,17 @@ fn scratch_dir() -> std::path::PathBuf {
 }
 
 pub fn run_tx3c(src: &str, tag: &str) -> Result<Vec<u8>, String> {
+    run_tx3c_with(src, tag, &[])
+}
+
+/// writes a file into this process's scratch directory and returns its path
+pub fn scratch_file(name: &str, content: &str) -> String {
+    let p = scratch_dir().join(name);
+    let _ = std::fs::write(&p, content);
+    p.to_string_lossy().to_string()
+}
+
+pub fn run_tx3c_with(src: &str, tag: &str, extra: &[String]) -> Result<Vec<u8>, String> {
     if !std::path::Path::new(TX3C).exists() {
         panic!("harness: {TX3C} is missing (run ./check --build)");
     }
@@ -138,6 +149,7 @@ pub fn run_tx3c(src: &str, tag: &str) -> Result<Vec<u8>, String> {
         .arg("tii")
         .arg("-o")
         .arg(&out_path)
+        .args(extra)
         .output()
         .map_err(|e| format!("cannot run tx3c: {e}"))?;
     let res = if out.status.success() {
@@ -295,14 +307,14 @@ impl Prop for C17 {
          compiled by the real `tx3c build --emit tii`; the file is read back: transaction set equal; embedded IR decodes to canonical(lower(P, tx)); \
          find_params(decoded) is a subset of the declared keys with identical spelling; every declared key the body uses is required under the same \
          spelling; no two declared keys collide; a request built from exactly the declared keys passes parse_resolve_request and resolve_tx without \
-         MissingTxArg. Non-trivial = tx3c produced a TII that was compared; distinct = distinct sources."
+         MissingTxArg. The same for every distinct program of the typed generator (gen::prog) with <= 2 (thorough 3) deviations. Non-trivial = tx3c produced a TII that was compared; distinct = distinct sources."
             .into()
     }
     fn assumptions(&self) -> Vec<String> {
         vec!["the binary is rebuilt from /repo by ./check before the run".into(), "derived `<policy>_script` parameters are reported under their own signature".into()]
     }
     fn bound(&self, _tier: Tier) -> String {
-        "spelling generator <= 2 deviations (thorough 3); corpus".into()
+        "spelling generator <= 2 deviations (thorough 3); corpus; typed program generator <= 2 (3) deviations".into()
     }
     fn case_identity(&self, case: &Value) -> String {
         case["src"].as_str().unwrap_or("").to_string()
@@ -314,6 +326,11 @@ impl Prop for C17 {
         });
         for (name, src) in c13::corpus(tier) {
             sink.case(|| json!({"kind": "corpus", "file": name, "src": src}));
+        }
+        // feature-rich programs of the typed generator (env, locals, policies, assets, records, mint, validity,
+        // signers, metadata, references, collateral ...): each declared key is used in some other position
+        for src in crate::gen::prog::distinct_sources(if tier.is_thorough() { 3 } else { 2 }) {
+            sink.case(|| json!({"kind": "generator", "src": src}));
         }
     }
     fn run(&self, case: &Value) -> Outcome {
